@@ -148,9 +148,9 @@ class Evaluator:
             for path in pathterms.acyclic_paths(fn, r):
                 conds = []
                 for bb, op, taken, excluded in pathterms.conditions(fn, path):
-                    sh = flow.shape_on(fn, op, path)
+                    sh = flow.shape_on(fn, op, path, depth=48)
                     conds.append((self._parse(sh, fn), taken, excluded, self._discr_kind(fn, op), bb))
-                rows.append((path, conds, self._parse(flow.shape_on(fn, 0, path), fn)))
+                rows.append((path, conds, self._parse(flow.shape_on(fn, 0, path, depth=48), fn)))
         if not rows:
             raise Unmodelled("%s has no return path" % fn.id)
         self._fn[fn.id] = rows
